@@ -49,11 +49,37 @@ class ConclusionMixin:
             raise OutOfSubset("update of a conclusion set with something else", node)
         cur = z3.Select(st.fields['concl'], recv.data['of'])
         st.fields['concl'] = z3.Store(st.fields['concl'], recv.data['of'], z3.Map(Z.OR_D, cur, src))
+        if recv.data['of'].eq(st.ghost['self']):
+            st.ghost['own_from'] = o.data['of']       # which operand's selection the node passes on for the current output
         return [(st, NONE)]
 
     def obj_conclset_clear(self, eng, st, recv, args, kwargs, node):
         st = st.clone()
         st.fields['concl'] = z3.Store(st.fields['concl'], recv.data['of'], EMPTY)
+        if recv.data['of'].eq(st.ghost['self']):
+            st.ghost['own_from'] = None
+            st.ghost['retracted'] = []
+        return [(st, NONE)]
+
+    def node__clear_conclusion_(self, eng, st, recv, args, kwargs, node):
+        # ConclusionSelector._clear_conclusion_: the real body is executed (the own set is emptied, the retraction record reset)
+        q = self.src.resolve_method(self.cls, '_clear_conclusion_')
+        if q is None or not recv.t.eq(st.ghost['self']):
+            raise OutOfSubset("_clear_conclusion_ of something else than the node itself", node)
+        return self.inline_method(eng, st, q, recv, args, kwargs, node)
+
+    def setattr(self, eng, st, recv, name, v):
+        if isinstance(recv, ZV) and recv.ty == 'node' and recv.t.eq(st.ghost['self']) and name == '_concluded_now_':
+            st = st.clone()
+            st.ghost['concluded_now'] = v
+            return [st]
+        return super().setattr(eng, st, recv, name, v)
+
+    def node__retract_conclusion_(self, eng, st, recv, args, kwargs, node):
+        """operand._retract_conclusion_() - the operand (a conclusion selector) forgets that it concluded what it selected for
+        the current output (contract RetractConclusion).  The conclusion sets themselves are not touched."""
+        st = st.clone()
+        st.ghost['retracted'] = st.ghost.get('retracted', []) + [recv.t]
         return [(st, NONE)]
 
     def obj_truth(self, eng, st, v):
@@ -171,6 +197,24 @@ class ExceptIfEval(RefinementCacheMixin, ConclusionMixin, EvalContract):
         l, r = Z.f_left(n), Z.f_right(n)
         return z3.If(Z.Den(r, rho), Sel(r, rho), Sel(l, rho))
 
+    def extra_yield_obligations(self, eng, st, v, ordinal, node):
+        super().extra_yield_obligations(eng, st, v, ordinal, node)
+        n = st.ghost['self']
+        l, r = Z.f_left(n), Z.f_right(n)
+        src = st.ghost.get('own_from')
+        retracted = st.ghost.get('retracted', [])
+        # a refinement that fires REPLACES what the refined rule selected for this output: the refined rule (if it is a
+        # conclusion selector) is told, so that it does not remember having concluded it; a selection that is passed on is
+        # never retracted, and nothing but the refined rule is ever asked to retract
+        eng.oblige(st, f"C12/retract@yield#{ordinal}/only-the-refined-rule-is-asked-to-retract",
+                   z3.And(*[x == l for x in retracted]) if retracted else z3.BoolVal(True), line=node.lineno)
+        if src is not None and src.eq(r):
+            eng.oblige(st, f"C12/retract@yield#{ordinal}/a-replaced-selection-is-retracted",
+                       z3.Implies(Z.selects_conclusions(l), z3.BoolVal(bool(retracted))), line=node.lineno)
+        else:
+            eng.oblige(st, f"C12/retract@yield#{ordinal}/a-selection-that-is-passed-on-is-not-retracted",
+                       z3.BoolVal(not retracted), line=node.lineno)
+
 
 from .symbolic_nodes import ElseIfEval  # noqa: E402
 
@@ -216,7 +260,7 @@ class AlternativeEval(ConclusionMixin, EvalContract):
     trusted = ("update_conclusion(output, conclusions): adds `conclusions` to the node's own set unless it is empty or the "
                "projection of the output on the conclusions' variables was concluded before (contract UpdateConclusion)",
                "super()._evaluate__ is ElseIf._evaluate__ on the same node: interface contract I plus clause S2 (contract "
-               "ElseIfRuleEval); result cache off (cache on: bounded rule-tree stand-ins, known finding)")
+               "ElseIfRuleEval); result cache off (cache on: bounded rule-tree stand-ins)")
 
     def modenv(self):
         env = base_modenv()
@@ -399,6 +443,13 @@ class UpdateConclusion(LibModel):
         st.ghost['seen_calls'] = st.ghost['seen_calls'] + [('add', recv.data['key'], d, None)]
         return [(st, NONE)]
 
+    def setattr(self, eng, st, recv, name, v):
+        if isinstance(recv, ZV) and recv.ty == 'node' and recv.t.eq(st.ghost['self']) and name == '_concluded_now_':
+            st = st.clone()
+            st.ghost['concluded_now'] = v
+            return [st]
+        return super().setattr(eng, st, recv, name, v)
+
     def obj_ownset_update(self, eng, st, recv, args, kwargs, node):
         (o,) = args
         if not (isinstance(o, Obj) and o.kind == 'givenset'):
@@ -441,6 +492,14 @@ class UpdateConclusion(LibModel):
             eng.oblige(st, "C12/update/not-seen-adds-the-conclusions-and-records-the-same-key",
                        z3.Implies(z3.Not(seen), z3.And(post == z3.Map(Z.OR_D, pre, src), z3.BoolVal(ok_add),
                                                        adds[0][1] == key if adds else z3.BoolVal(False))))
+            # ... and remembers WHERE it recorded it, for the case that a refinement further up replaces the conclusion
+            # (contract RetractConclusion): the pair (that concluded-before set, that recorded key), set exactly when something
+            # was recorded
+            now = st.ghost.get('concluded_now')
+            now_ok = (isinstance(now, Tup) and len(now.items) == 2 and isinstance(now.items[0], Obj) and now.items[0].kind == 'seenset'
+                      and isinstance(now.items[1], D) and bool(adds) and isinstance(adds[0][2], D) and now.items[1].ref == adds[0][2].ref)
+            eng.oblige(st, "C12/update/remembers-what-it-recorded-exactly-when-it-recorded",
+                       z3.And(z3.Implies(z3.Not(seen), z3.BoolVal(bool(now_ok))), z3.Implies(seen, z3.BoolVal(now is None))))
         elif not checks:
             eng.oblige(st, "C12/update/a-non-empty-set-is-looked-up", src == EMPTY)
 
@@ -520,4 +579,92 @@ class SelectorReset(LibModel):
         return {}
 
 
-CONTRACTS = [ExceptIfEval, ElseIfRuleEval, AlternativeEval, UpdateConclusion, SelectorReset]
+class RetractConclusion(LibModel):
+    """ConclusionSelector._retract_conclusion_() - called by an ExceptIf whose refinement replaces what this node selected
+    for the current output (contract ExceptIfEval): if the node recorded a binding as concluded for this output
+    (_concluded_now_, set by update_conclusion), exactly that record is taken out of exactly that concluded-before set
+    (SeenSet.discard) and forgotten; otherwise nothing is discarded; either way every operand that is itself a conclusion
+    selector is asked to retract too (its selection was passed on through this node), and no other operand is."""
+    qual = 'conclusion_selector:ConclusionSelector._retract_conclusion_'
+    cls = 'ConclusionSelector'
+    props = ('C12',)
+    modes = ('sound',)
+    trusted = ("SeenSet.discard(a) removes the constraint object a (and only it) from the set: bounded check "
+               "'C12_retract' on the real code",)
+
+    def modenv(self):
+        return base_modenv()
+
+    def setup(self, eng):
+        sts = []
+        self.n = z3.Const('self', Z.Node)
+        for recorded in (False, True):
+            st = State()
+            st.fields = init_fields()
+            st.locals['self'] = ZV(self.n, 'node')
+            st.ghost['self'] = self.n
+            st.path.append(f"recorded-for-this-output={recorded}")
+            if recorded:
+                d = eng.new_dict(st, Z.ZMap.fresh('recorded_key'))
+                st.ghost['now'] = Tup([Obj('seenset', {'id': 'the-set'}), d])
+                st.ghost['now_ref'] = d.ref
+            else:
+                st.ghost['now'] = NONE
+                st.ghost['now_ref'] = None
+            st.ghost['discards'] = []
+            st.ghost['asked'] = []
+            sts.append(st)
+        return sts
+
+    def getattr(self, eng, st, recv, name):
+        if isinstance(recv, ZV) and recv.ty == 'node' and recv.t.eq(self.n) and name == '_concluded_now_':
+            return [(st, st.ghost['now'])]
+        if isinstance(recv, ZV) and recv.ty in ('node', 'optnode') and name == '_retract_conclusion_':
+            return [(st, Meth(recv, name))]
+        if isinstance(recv, Obj) and recv.kind == 'seenset':
+            return [(st, Meth(recv, name))]
+        return super().getattr(eng, st, recv, name)
+
+    def setattr(self, eng, st, recv, name, v):
+        if isinstance(recv, ZV) and recv.ty == 'node' and recv.t.eq(self.n) and name == '_concluded_now_':
+            st = st.clone()
+            st.ghost['now'] = v
+            return [st]
+        return super().setattr(eng, st, recv, name, v)
+
+    def obj_seenset_discard(self, eng, st, recv, args, kwargs, node):
+        (d,) = args
+        st = st.clone()
+        st.ghost['discards'] = st.ghost['discards'] + [(recv.data.get('id'), d.ref if isinstance(d, D) else None)]
+        return [(st, NONE)]
+
+    def call(self, eng, st, f, args, kwargs, node):
+        if isinstance(f, Meth) and isinstance(f.recv, ZV) and f.recv.ty in ('node', 'optnode') and f.name == '_retract_conclusion_':
+            st = st.clone()
+            st.ghost['asked'] = st.ghost['asked'] + [f.recv.t]
+            return [(st, NONE)]
+        return super().call(eng, st, f, args, kwargs, node)
+
+    def on_exit(self, eng, o):
+        st = o.st
+        if o.sig not in (NEXT, RETURN):
+            eng.oblige(st, "C12/retract/finishes-normally", z3.BoolVal(False))
+            return
+        ref = st.ghost['now_ref']
+        want = [('the-set', ref)] if ref is not None else []
+        eng.oblige(st, "C12/retract/exactly-the-record-of-this-output-is-taken-back", z3.BoolVal(st.ghost['discards'] == want))
+        now = st.ghost['now']
+        eng.oblige(st, "C12/retract/nothing-stays-recorded-for-this-output", z3.BoolVal(isinstance(now, C) and now.v is None))
+        l, r = Z.f_left(self.n), Z.f_right(self.n)
+        asked = st.ghost['asked']
+        for nm, c in (('left', l), ('right', r)):
+            times = sum(z3.If(a == c, 1, 0) for a in asked) if asked else z3.IntVal(0)
+            eng.oblige(st, f"C12/retract/the-{nm}-operand-is-asked-exactly-when-it-selects-conclusions",
+                       times == z3.If(Z.selects_conclusions(c), 1, 0), hyp=[l != r])
+        eng.oblige(st, "C12/retract/nothing-else-is-asked", z3.And(*[z3.Or(a == l, a == r) for a in asked]) if asked else z3.BoolVal(True))
+
+    def signature(self, ob, model):
+        return {}
+
+
+CONTRACTS = [ExceptIfEval, ElseIfRuleEval, AlternativeEval, UpdateConclusion, SelectorReset, RetractConclusion]
